@@ -114,10 +114,14 @@ class Run:
 
     # ------------------------------------------------------------------
     def _known(self):
-        if not KNOWN_FINDINGS.exists():
-            return []
-        data = json.loads(KNOWN_FINDINGS.read_text())
-        return [f for f in data.get("findings", []) if f.get("property") == self.pid]
+        out = []
+        files = [KNOWN_FINDINGS] + sorted((VERIF / "known_findings.d").glob("*.json"))
+        for fpath in files:
+            if not fpath.exists():
+                continue
+            data = json.loads(fpath.read_text())
+            out += [f for f in data.get("findings", []) if f.get("property") == self.pid]
+        return out
 
     def finish(self) -> int:
         EVIDENCE_DIR.mkdir(exist_ok=True)
